@@ -57,7 +57,8 @@ func poolDuplicates(p *sync.Pool, draw int) (dups int, first string) {
 
 func TestC07Pools(t *testing.T) {
 	mode := vlib.Param("MODE", "zstd")
-	rep := vlib.NewReport("C07", "E4-pools:"+mode)
+	prop := vlib.Param("PROPERTY", "C07")
+	rep := vlib.NewReport(prop, "E4-pools:"+mode)
 	defer rep.Write()
 	oldP := runtime.GOMAXPROCS(1)
 	defer runtime.GOMAXPROCS(oldP)
@@ -171,7 +172,7 @@ func TestC07Pools(t *testing.T) {
 		waitFor(func() bool { g, _ := handlerGoroutines(); return g == 0 && f.active.Load() == 0 })
 		for pn, p := range pools {
 			if dups, first := poolDuplicates(p, 64); dups > 0 {
-				rep.Violate("C07 shared "+pn+" pool holds an object twice after "+c.name,
+				rep.Violate(prop+" shared "+pn+" pool holds an object twice after "+c.name,
 					fmt.Sprintf("mode=%s: after %d x [%s] the zstd %s pool returned the same object (%s) to two Get calls (%d repeats among 64 draws): two later requests would share it", mode, reps, c.name, pn, first, dups), nil)
 			}
 		}
